@@ -18,7 +18,7 @@ func c09Records() []refdns.RR {
 	return []refdns.RR{
 		refdns.A(N("a"), 300, 192, 0, 2, 1),
 		refdns.NameRR(refdns.TypeCNAME, N("www", "example", "a"), 60, N("cdn", "example", "a")),
-		refdns.TXT(N("example", "a"), 60, 96, 't'),
+		refdns.TXT(N("Example", "A"), 60, 96, 't'), // the question name in other letter case: equal as a DNS name, not octet-identical (no compression pointer to the question)
 		refdns.TXT(N("a"), 60, 405, 'u'),
 		refdns.SOA(N("example", "a"), 60, N("ns", "example", "a"), N("root", "example", "a"), 1),
 	}
@@ -186,6 +186,31 @@ func c09Limits(m *refdns.Msg) []int {
 			}
 		}
 	}
+	// the same around every record boundary of the compressed encoding (the packer's running offset when compression is on)
+	{
+		pm := &refdns.Msg{ID: m.ID, Bits: m.Bits, Q: m.Q}
+		secs := [][]refdns.RR{m.An, m.Ns, m.Ar}
+		for si, sec := range secs {
+			for i := range sec {
+				if sec[i].Type == refdns.TypeOPT {
+					continue
+				}
+				switch si {
+				case 0:
+					pm.An = append(pm.An, sec[i])
+				case 1:
+					pm.Ns = append(pm.Ns, sec[i])
+				default:
+					pm.Ar = append(pm.Ar, sec[i])
+				}
+				cl := len(pm.Encode(true))
+				for _, d := range []int{-9, -5, -2, -1, 0, 1, 2} {
+					set[cl+d] = true
+					set[cl+optLen+d] = true
+				}
+			}
+		}
+	}
 	var out []int
 	for l := range set {
 		if l == 0 || l == 100 || (l >= 512 && l <= 65535) {
@@ -312,7 +337,7 @@ func TestVerifC09(t *testing.T) {
 	defer rep.Write()
 	maxRec := report.ParamInt("MAXREC", 4)
 	rep.Rule = fmt.Sprintf("E1: all sequences of <=%d records over {17B A, compressible CNAME, 96B TXT, 405B TXT, SOA} x all nondecreasing section assignments x OPT absent/at every additional position x "+
-		"limits {0,100,512,513,1232,4096,65535, U-1,U,U+1, +-2 around every record boundary (also shifted by the OPT length)} x compression on/off; plus 3..5 records of {16000B,30000B,A} against 65535/65534/40000/U/U-1; "+
+		"limits {0,100,512,513,1232,4096,65535, U-1,U,U+1, +-2 around every record boundary of the uncompressed and {-9,-5,-2..+2} of the compressed encoding (also shifted by the OPT length)} x compression on/off; plus 3..5 records of {16000B,30000B,A} against 65535/65534/40000/U/U-1; "+
 		"oracle: length<=max(512,limit), decodes cleanly (reference, miekg, x/net), TC<=>omitted, nothing omitted if uncompressed fits, question+OPT retained, kept answer/authority records in order and byte-equal; "+
 		"distinct = distinct (message, limit, compress, output length, omitted count)", maxRec)
 	if rp := report.ReplayFile(); rp != nil {
